@@ -74,8 +74,19 @@ def mutate(rng, fam, body):
             p[4] = str(int(p[4]) + 1)
     elif fam == "hs":
         # metric;strategy;idx;key;thr;maxq;burst;dur;cap;spec
-        idx = rng.choice([4, 4, 7] + ([6] if p[1] == "r" and p[0] == "q" else []) + ([5] if p[1] == "t" else []))
-        p[idx] = str(int(p[idx]) + rng.choice([1, 2]))
+        idx = rng.choice([4, 4, 7, 9, 9] + ([6] if p[1] == "r" and p[0] == "q" else []) + ([5] if p[1] == "t" else []))
+        if idx == 9:
+            # only the per-value overrides change (seed C06-e): add, change or remove the override of value `a`
+            while len(p) < 10:
+                p.append("")
+            cur = dict(kv.split("=") for kv in p[9].split("|") if kv)
+            if "a" in cur and rng.random() < 0.4:
+                del cur["a"]
+            else:
+                cur["a"] = str(int(cur.get("a", "0")) + rng.choice([1, 2, 5]))
+            p[9] = "|".join("%s=%s" % kv for kv in sorted(cur.items()))
+        else:
+            p[idx] = str(int(p[idx]) + rng.choice([1, 2]))
     else:
         # strategy;retry;minreq;ivl;buckets;maxrt;thr
         idx = rng.choice([1, 2, 3, 6])
